@@ -315,8 +315,8 @@ def contracts():
         for nb in range(0, 3):
             cs.append(Merge(na, nb))
     cs += [Trim('start'), Trim('end'), SubGetItem('int'), SubGetItem('slice')]
-    from contracts import c19_substring
-    cs += c19_substring.contracts()
+    from contracts import c19_substring, c19_parser
+    cs += c19_substring.contracts() + c19_parser.contracts()
     return [c for c in cs if c.key() not in PARKED]
 
 
@@ -329,7 +329,7 @@ ASSUMPTIONS = ['incoming summed sets contain pairwise distinct indices', 'BOUNDE
 NOT_COVERED = ['that the produced array means the index-notation reading (the _FunctionArrayOps backend), operator precedence, function calls, gradients, jump/mean',
                'the whole of expression_v1']
 
-from contracts import c19_substring as _sub  # noqa: E402
-TRUSTED = TRUSTED + _sub.TRUSTED
-ASSUMPTIONS = ASSUMPTIONS + _sub.ASSUMPTIONS
-NOT_COVERED = NOT_COVERED + _sub.NOT_COVERED
+from contracts import c19_substring as _sub, c19_parser as _par  # noqa: E402
+TRUSTED = TRUSTED + _sub.TRUSTED + _par.TRUSTED
+ASSUMPTIONS = ASSUMPTIONS + _sub.ASSUMPTIONS + _par.ASSUMPTIONS
+NOT_COVERED = NOT_COVERED + _sub.NOT_COVERED + _par.NOT_COVERED
